@@ -17,14 +17,14 @@ import (
 // the result must be the same tree. Integer literals are written with symbolic digits.
 
 type layout struct {
-	parens   bool // redundant parentheses around every operand
-	spaces   bool // blanks around operators and after commas
-	comment  bool // a trailing comment on every line
-	blank    bool // blank lines inside blocks and line breaks inside array literals
-	unicode  bool // non-ASCII text in comments
-	pleaves  bool // redundant parentheses around names and literals too
-	clines   bool // lines holding only a comment: after {, between statements, before }
-	indent   bool // lines inside blocks start with blanks and tabs, and end with blanks
+	parens  bool // redundant parentheses around every operand
+	spaces  bool // blanks around operators and after commas
+	comment bool // a trailing comment on every line
+	blank   bool // blank lines inside blocks and line breaks inside array literals
+	unicode bool // non-ASCII text in comments
+	pleaves bool // redundant parentheses around names and literals too
+	clines  bool // lines holding only a comment: after {, between statements, before }
+	indent  bool // lines inside blocks start with blanks and tabs, and end with blanks
 }
 
 // cl is an optional comment-only line.
@@ -412,4 +412,3 @@ func VerifC07Digits() {
 	text := d1 + " " + op + " a[" + d2 + "]"
 	c07Check(t, text)
 }
-
